@@ -344,6 +344,38 @@ def route_case(rules, msgs, raising=(), removed=()):
     return None
 
 
+def interleaved_history_case(rnd, steps=14):
+    """rules added and removed in any order: every rule alive at a moment keeps its own id and its own callback"""
+    from txdbus import router
+    r = router.MessageRouter()
+    live = {}            # id -> (rule, tag)
+    got = []
+    tag = [0]
+    hist = []
+    for _ in range(steps):
+        if live and rnd.random() < 0.4:
+            rid = rnd.choice(sorted(live))
+            hist.append(('del', rid))
+            r.delMatch(rid)
+            del live[rid]
+        else:
+            rule = rnd.choice(RULES)
+            tag[0] += 1
+            t = tag[0]
+            rid = r.addMatch(lambda m, t=t: got.append(t), **rule)
+            hist.append(('add', rid, rule))
+            if rid in live:
+                return 'addMatch returned id %r which belongs to a rule that is still registered (history %r)' % (rid, hist)
+            live[rid] = (rule, t)
+        md = rnd.choice(MSGS)
+        del got[:]
+        r.routeMessage(FakeMsg(md))
+        want = sorted(t for rule, t in live.values() if ref_matches(rule, md))
+        if sorted(got) != want:
+            return 'after history %r the message %r reached callbacks %r, expected %r' % (hist, md, sorted(got), want)
+    return None
+
+
 def client_text_case():
     """rule text sent to the daemon == the constraints; router rule installed only after the daemon acknowledged"""
     from twisted.internet import defer
@@ -456,6 +488,11 @@ def bounded(tier, seed):
         f = route_case(rules, MSGS, raising, removed)
         if f:
             return n, f, {'rules': rules, 'raising': raising, 'removed': removed}
+    for _ in range(400 if tier == 'thorough' else 40):
+        n += 1
+        f = interleaved_history_case(rnd)
+        if f:
+            return n, f, {'case': 'interleaved add/remove history'}
     for case in (client_text_case, client_daemon_consistency_case, proxy_signature_case):
         n += 1
         f = case()
